@@ -56,9 +56,9 @@ def handle (op : String) (req : Json) : R Json := do
     let a ← fld req "acq" >>= parseAcq
     let sel ← parseSel req
     let squeeze ← getBool req "squeeze"
-    let nanMod ← getNat req "nan_mod"
-    let nanRem ← getNat req "nan_rem"
-    let isnan : Nat → Bool := fun k => nanMod != 0 && k % nanMod == nanRem
+    -- indices of the samples that are NaN in every element (the only thing `squeeze` reads of the values)
+    let nan ← getList asNat req "nan"
+    let isnan : Nat → Bool := fun k => nan.contains k
     match render a sel with
     | none => pure (jObj [("rendered", jBool false)])
     | some rd =>
@@ -98,9 +98,9 @@ def handle (op : String) (req : Json) : R Json := do
       | j => Clock.interval <$> asRat j
     let delay ← getRat req "delay"
     let squeeze ← getBool req "squeeze"
-    let nanMod ← getNat req "nan_mod"
-    let nanRem ← getNat req "nan_rem"
-    let isnan : Nat → Bool := fun k => nanMod != 0 && k % nanMod == nanRem
+    -- indices of the samples that are NaN in every element (the only thing `squeeze` reads of the values)
+    let nan ← getList asNat req "nan"
+    let isnan : Nat → Bool := fun k => nan.contains k
     pure (jObj [("model", jResult (syncClock rows sel shape clk delay isnan squeeze))])
   | "c08.pix" =>
     let q ← getRat req "q"
